@@ -7,8 +7,8 @@
      (1) the bridge from reflect types / tree values (Reflect/Ty.v) to that
          model's own type and value universe (to_ps, of_pval, parse_text);
      (2) exactly what that model lacks and the sources need:
-         - time.ParseDuration (a fraction with a non-zero digit is Err 98:
-           float arithmetic is not modelled),
+         - (durations are Text/ParseDuration.v; a fraction that model flags as
+           inexact is Err 98 here),
          - strconv.ParseFloat / ParseComplex on plain decimal texts whose
            value times 1024 is an integer (Err 98 otherwise),
          - net.IP.UnmarshalText on dotted-quad IPv4 text,
@@ -22,12 +22,13 @@
 From Coq Require Import String.
 From Coq Require Import List NArith ZArith Bool.
 From Dials Require Import Base.Outcome Base.Runes Reflect.Ty Text.ParseInt Text.Quote Text.Split.
-From Dials Require Text.ParseString.
+From Dials Require Text.ParseString Text.ParseDuration.
 Import ListNotations.
 Open Scope list_scope.
 Open Scope N_scope.
 
 Module PS := Dials.Text.ParseString.
+Module PD := Dials.Text.ParseDuration.
 
 Definition e_kind : N := PS.e_kind.
 Definition e_unmodelled : N := 97.
@@ -37,91 +38,10 @@ Definition pow2 (b : N) : N := 2 ^ b.
    scanned texts (U+00B5, U+03BC: the micro signs of duration units; U+00E9) *)
 Definition isp0 : rune -> bool := mk_print [181; 956; 233].
 
-(* ---- time.ParseDuration (fractions with a non-zero digit are not modelled) ---- *)
-Definition two63 : N := pow2 63.
-
-Fixpoint leading_int (x : N) (s : str) : outcome (N * str) :=
-  match s with
-  | c :: s' =>
-      if (48 <=? c) && (c <=? 57) then
-        if two63 / 10 <? x then Err e_range
-        else let x' := x * 10 + (c - 48) in
-             if two63 <? x' then Err e_range else leading_int x' s'
-      else Ok (x, s)
-  | [] => Ok (x, s)
-  end.
-
-(* leadingFraction: returns (all digits zero?, rest) *)
-Fixpoint leading_fraction (allzero : bool) (s : str) : bool * str :=
-  match s with
-  | c :: s' => if (48 <=? c) && (c <=? 57) then leading_fraction (allzero && (c =? 48)) s' else (allzero, s)
-  | [] => (allzero, s)
-  end.
-
-Fixpoint unit_span (s : str) : str * str :=
-  match s with
-  | c :: s' => if (c =? 46) || ((48 <=? c) && (c <=? 57)) then ([], s)
-               else let '(u, r) := unit_span s' in (c :: u, r)
-  | [] => ([], [])
-  end.
-
-Definition unit_ns (u : str) : option N :=
-  if str_eqb u [110;115] then Some 1
-  else if str_eqb u [117;115] || str_eqb u [181;115] || str_eqb u [956;115] then Some 1000
-  else if str_eqb u [109;115] then Some 1000000
-  else if str_eqb u [115] then Some 1000000000
-  else if str_eqb u [109] then Some 60000000000
-  else if str_eqb u [104] then Some 3600000000000
-  else None.
-
-Fixpoint dur_loop (fuel : nat) (d : N) (s : str) : outcome N :=
-  match s with
-  | [] => Ok d
-  | c :: _ =>
-      match fuel with
-      | O => Err e_unmodelled
-      | S fuel' =>
-          if negb ((c =? 46) || ((48 <=? c) && (c <=? 57))) then Err e_syntax else
-          r <- leading_int 0 s ;;
-          let '(v, s1) := r in
-          let pre := negb (length s1 =? length s)%nat in
-          let '(post, fzero, s2) :=
-            match s1 with
-            | 46 :: s1' => let '(z, s2) := leading_fraction true s1' in
-                           (negb (length s2 =? length s1')%nat, z, s2)
-            | _ => (false, true, s1)
-            end in
-          if negb pre && negb post then Err e_syntax else
-          let '(u, s3) := unit_span s2 in
-          match u with
-          | [] => Err e_syntax
-          | _ =>
-              match unit_ns u with
-              | None => Err e_syntax
-              | Some unit =>
-                  if two63 / unit <? v then Err e_range
-                  else if negb fzero then Err 98     (* float arithmetic: not modelled *)
-                  else let d' := d + v * unit in
-                       if two63 <? d' then Err e_range else dur_loop fuel' d' s3
-              end
-          end
-      end
-  end.
-
+(* ---- time.ParseDuration: the model of Text/ParseDuration.v; a text whose
+   fraction step is not exact in that model (flagged there) is Err 98 here ---- *)
 Definition parse_duration (s : str) : outcome Z :=
-  let '(neg, body) :=
-    match s with
-    | c :: r => if c =? 45 then (true, r) else if c =? 43 then (false, r) else (false, s)
-    | [] => (false, s)
-    end in
-  if str_eqb body [48] then Ok 0%Z
-  else match body with
-       | [] => Err e_syntax
-       | _ =>
-           d <- dur_loop (S (length body)) 0 body ;;
-           if neg then Ok (- Z.of_N d)%Z
-           else if (two63 - 1) <? d then Err e_range else Ok (Z.of_N d)
-       end.
+  r <- PD.parse_duration_x s ;; if snd r then Err 98 else Ok (fst r).
 
 (* ---- strconv.ParseFloat / ParseComplex on the plain decimal subset
      [+-]? digits* [. digits*] [ (e|E) [+-]? digits+ ]
@@ -225,11 +145,11 @@ Definition is_pstring (t : ty) : bool :=
   match t with TBasic KString n => predeclared n | _ => false end.
 
 (* the ParseString type of a reflect type; None: outside that model
-   (durations, floats, complex - handled below) *)
+   (floats, complex - handled below) *)
 Fixpoint to_ps (t : ty) {struct t} : option PS.ty :=
   match t with
   | TBasic k name =>
-      if str_eqb name duration_name then None else
+      if str_eqb name duration_name then Some PS.TDur else
       match k with
       | KString => Some PS.TStr
       | KBool => Some PS.TBool
@@ -260,14 +180,14 @@ Fixpoint of_pval (v : PS.pval) : val :=
   | PS.VSet l => VMap (map (fun k => (VStr k, VStruct [])) l)
   | PS.VMss m => VMap (map (fun kv => (VStr (fst kv), VList (map VStr (snd kv)))) m)
   | PS.VMap m => VMap (map (fun kv => (of_pval (fst kv), of_pval (snd kv))) m)
+  | PS.VOpaque => VOpaque 98          (* a duration the model cannot determine: never generated *)
   end.
 
 (* scalars the parse model lacks *)
 Definition parse_extra (t : ty) (s : str) : outcome val :=
   match t with
   | TBasic k name =>
-      if str_eqb name duration_name then
-        match k with KInt 64 => omap VInt (parse_duration s) | _ => Err 96 end
+      if str_eqb name duration_name then Err 96   (* durations are in the parse model *)
       else match k with
            | KFloat b => omap VFloat (parse_float b s)
            | KComplex b => parse_complex b s
@@ -284,9 +204,9 @@ Definition parse_text (t : ty) (s : str) : outcome val :=
   | Some pt => omap of_pval (PS.parse_string isp0 true true pt s)
   | None =>
       match t with
-      | TSlice e _ =>                       (* a slice of durations / floats: element-wise, as the code does *)
+      | TSlice e _ =>                       (* a slice of floats: element-wise, as the code does *)
           l <- string_slice isp0 s ;; omap VList (map_out (parse_extra e) l)
-      | TMap _ _ _ => Err e_unmodelled      (* maps with float / duration components *)
+      | TMap _ _ _ => Err e_unmodelled      (* maps with float components *)
       | _ => parse_extra t s
       end
   end.
